@@ -62,7 +62,7 @@ pub fn run(ctx: &Ctx, rep: &mut Report) {
     let mut cfgs = lattice_systematic(max_mn, max_ncap, false);
     let nrand = if ctx.thorough() { 300 } else { 24 };
     cfgs.extend(lattice_random(&mut ctx.rng(&format!("c14-lattice-{GROUP}"), 0), nrand, max_mn, max_ncap));
-    let reps = if ctx.thorough() { 16 } else { 3 };
+    let reps = if ctx.thorough() { 60 } else { 3 };
     let mut id = 0usize;
     for (k, cfg) in cfgs.iter().enumerate() {
         for r in 0..reps {
